@@ -56,7 +56,7 @@ def run(rec):
                 'truncation error, make_U_I/II error order in t; non-trivial = MPO bond dimension >= 3')
     rec.bounds = {'L': [3, 4, 5], 'reps': n_rep}
     tol = 1e-8
-    for fname, fam in mpsgen.site_families():
+    for fname, fam in [x for x in mpsgen.site_families() if not getattr(x[1], 'takes_L', False)]:
         for rep in range(n_rep):
             L = int(rng.integers(3, 5 if quick else 6))
             sites = [fam() for _ in range(L)]
